@@ -2,11 +2,13 @@
    Proved here, for all inputs: the body canonicalization the code computes (one pass over the octets) is the
    RFC 6376 3.4.3 / 3.4.4 canonicalization defined on lines (Spec/Dkim.v), simple and relaxed, for every body
    that is a sequence of CRLF-terminated lines (what Message::body_raw hands over); and the emitted
-   DKIM-Signature field gives back, under RFC 6376 3.7, exactly the text that was hashed.  The agreement of
-   the relaxed HEADER pass with the RFC's field-based definition and the cryptographic acceptance are
-   decided by the check on the implementation (exhaustive sweep, independent verifier); not theorems. *)
+   DKIM-Signature field gives back, under RFC 6376 3.7, exactly the text that was hashed; and the relaxed
+   HEADER pass (one pass over all serialized fields) is RFC 6376 3.4.2 applied field by field, for every list of
+   fields made of words separated by white space with at most one line break per gap (the shape the header
+   encoder writes).  The cryptographic acceptance is decided by the check on the implementation
+   (independent verifier); not a theorem. *)
 From Coq Require Import Strings.String.
-From LV Require Import Base.Bytes Base.Str Base.Res Model.HeaderEnc Model.Headers Model.Dkim Spec.Rfc5322 Spec.Dkim Proofs.DkimProofs Proofs.DkimBodyProofs.
+From LV Require Import Base.Bytes Base.Str Base.Res Model.HeaderEnc Model.Headers Model.Dkim Spec.Rfc5322 Spec.Dkim Proofs.DkimProofs Proofs.DkimBodyProofs Proofs.DkimHeaderProofs.
 Local Open Scope nat_scope.
 
 (* For EVERY non-empty sequence of lines without an inner CRLF (any octets otherwise: bare CR, bare LF, NUL,
@@ -18,6 +20,31 @@ Proof. exact simple_body_is_rfc. Qed.
 Theorem C13_relaxed_body_canonicalization : forall ls,
   ls <> [] -> Forall line_ok ls -> canon_body Relaxed (terminated ls) = spec_body true (terminated ls).
 Proof. exact relaxed_body_is_rfc. Qed.
+
+(* For EVERY list of header fields whose text is  name ":" WSP* [word (gap word)* WSP*] CRLF  - names of any
+   octets but ':', white space and CR, already lower-cased (dkim.rs lower-cases them when it collects the fields);
+   words of any octets but white space and CR (8-bit, bare LF, NUL included); each gap a non-empty run of
+   SP / TAB, or WSP* CRLF WSP+ (a fold) - any number of fields, words and any gap lengths: the single pass of
+   dkim.rs over the concatenated fields gives exactly what RFC 6376 3.4.2 prescribes for each field on its own
+   (unfold, compress WSP to one SP, delete WSP at the end of the value and around the colon). *)
+Theorem C13_relaxed_header_canonicalization : forall fs : list sfield,
+  Forall sf_ok fs -> Forall sf_lower fs ->
+  canon_headers_relaxed (flat_map sf_text fs) = flat_map (fun f => spec_field_relaxed (sf_text f)) fs.
+Proof. exact relaxed_headers_rfc. Qed.
+
+(* non-vacuity: a folded field with a TAB run, trailing blanks and an empty field meet the hypotheses; the text and
+   the canonical form are what one expects *)
+Example C13_header_example :
+  let f1 := mkSF (bs "subject") [SP] (BWords (bs "hello") [(GFold [] [SP], bs "w" ++ [195; 182] ++ bs "rld")%N; (GPlain [SP; TAB], bs "x")] [SP]) in
+  let f2 := mkSF (bs "x-empty") [SP; SP] BEmpty in
+  Forall sf_ok [f1; f2] /\ Forall sf_lower [f1; f2] /\
+  flat_map sf_text [f1; f2] = bs "subject: hello" ++ CRLF ++ bs " w" ++ [195; 182]%N ++ bs "rld " ++ [TAB] ++ bs "x " ++ CRLF ++ bs "x-empty:  " ++ CRLF /\
+  canon_headers_relaxed (flat_map sf_text [f1; f2]) = bs "subject:hello w" ++ [195; 182]%N ++ bs "rld x" ++ CRLF ++ bs "x-empty:" ++ CRLF.
+Proof.
+  cbv zeta. split; [|split; [|split]]; try (vm_compute; reflexivity).
+  - repeat constructor; try discriminate; try reflexivity.
+  - repeat constructor.
+Qed.
 
 (* For EVERY tag list written before b= (any number of tags, any folding inside them, none of them named b,
    no ';' inside a tag), every spelling `n` of the tag name b and every signature text without ';' (any
@@ -55,3 +82,4 @@ Print Assumptions C13_simple_body_canonicalization.
 Print Assumptions C13_relaxed_body_canonicalization.
 Print Assumptions C13_signature_field_recovers_hashed_text.
 Print Assumptions C13_folded_signature_is_a_tag_value.
+Print Assumptions C13_relaxed_header_canonicalization.
